@@ -22,9 +22,9 @@ From Tramp Require Import Model.Base Model.Fee Model.Classify Model.Node Model.P
 From Tramp Require Import Proofs.SysBasics Proofs.SysShape Proofs.SysTheorems Proofs.SysReach Proofs.SysCalls Proofs.SysNode Proofs.SysSafety Proofs.SysRecover.
 
 Theorem C09_crash_image_is_a_start_image : forall c n t0 h0 a0 evs,
-  node_ok n -> hist_wf c (sys_start n t0 h0 a0) evs ->
+  node_ok n -> hist_wf false c (sys_start n t0 h0 a0) evs ->
   node_ok (nd (fst (step c (after c n t0 h0 a0 evs) EvCrash))).
-Proof. intros c n t0 h0 a0 evs Hn Hwf. exact (crash_image_ok c _ (after_wreach c n t0 h0 a0 evs Hn Hwf)). Qed.
+Proof. intros c n t0 h0 a0 evs Hn Hwf. exact (crash_image_ok false c _ (after_wreach false c n t0 h0 a0 evs Hn Hwf)). Qed.
 
 Theorem C09_never_wedged : forall c n t0 h0 a0 h (p : list N),
   funded c h -> mpp_ms c <> 0 -> node_ok n -> (forall i, nth_error (parts n) i <> Some PPend) ->
